@@ -5,7 +5,7 @@ import Fundraising.Proofs.ExecLemmas
   (address, denom), the "slack" of the three escrows of one auction, and the frame
   (`Local`) of an operation on one auction.
 -/
-namespace Fundraising
+namespace Fundraising.EscrowInv
 
 /-! ### `Except` plumbing -/
 
@@ -27,22 +27,22 @@ theorem check_ok {c : Ctx} {b : Bool} {u : Unit} : c.check b = Except.ok u ↔ b
 /-! ### bank primitives -/
 
 /-- index of the auction an escrow address belongs to -/
-def Addr.esc : Addr → Option Nat
+def escIdx : Addr → Option Nat
   | .sell a => some a
   | .pay a => some a
   | .vest a => some a
   | _ => none
 
-theorem esc_ne_sell {x : Addr} {i j : Nat} (hx : x.esc = some j) (hj : j ≠ i) : x ≠ .sell i := by
-  intro e; subst e; simp [Addr.esc] at hx; exact hj hx.symm
-theorem esc_ne_pay {x : Addr} {i j : Nat} (hx : x.esc = some j) (hj : j ≠ i) : x ≠ .pay i := by
-  intro e; subst e; simp [Addr.esc] at hx; exact hj hx.symm
-theorem esc_ne_vest {x : Addr} {i j : Nat} (hx : x.esc = some j) (hj : j ≠ i) : x ≠ .vest i := by
-  intro e; subst e; simp [Addr.esc] at hx; exact hj hx.symm
-theorem esc_ne_user {x : Addr} {j : Nat} {u : Acc} (hx : x.esc = some j) : x ≠ .user u := by
-  intro e; subst e; simp [Addr.esc] at hx
-theorem esc_ne_pool {x : Addr} {j : Nat} (hx : x.esc = some j) : x ≠ .pool := by
-  intro e; subst e; simp [Addr.esc] at hx
+theorem esc_ne_sell {x : Addr} {i j : Nat} (hx : escIdx x = some j) (hj : j ≠ i) : x ≠ .sell i := by
+  intro e; subst e; simp [escIdx] at hx; exact hj hx.symm
+theorem esc_ne_pay {x : Addr} {i j : Nat} (hx : escIdx x = some j) (hj : j ≠ i) : x ≠ .pay i := by
+  intro e; subst e; simp [escIdx] at hx; exact hj hx.symm
+theorem esc_ne_vest {x : Addr} {i j : Nat} (hx : escIdx x = some j) (hj : j ≠ i) : x ≠ .vest i := by
+  intro e; subst e; simp [escIdx] at hx; exact hj hx.symm
+theorem esc_ne_user {x : Addr} {j : Nat} {u : Acc} (hx : escIdx x = some j) : x ≠ .user u := by
+  intro e; subst e; simp [escIdx] at hx
+theorem esc_ne_pool {x : Addr} {j : Nat} (hx : escIdx x = some j) : x ≠ .pool := by
+  intro e; subst e; simp [escIdx] at hx
 
 theorem move_zero (b : Bank) (src dst : Addr) (d : Denom) : b.move src dst d 0 = b := by
   funext a d'
@@ -110,13 +110,13 @@ theorem send_single {c c' : Ctx} {k : XKind} {src dst : Addr} {d : Denom} {amt :
 /-- a fee payment (user → pool, any coins): no escrow is touched -/
 theorem fee_core {c c' : Ctx} {k : XKind} {u : Acc} {coins : List Coin}
     (h : c.bankCall k (.user u) .pool coins = .ok c') :
-    ∃ b', c'.s = { c.s with bank := b' } ∧ ∀ x j, x.esc = some j → ∀ d, b' x d = c.s.bank x d := by
+    ∃ b', c'.s = { c.s with bank := b' } ∧ ∀ x j, escIdx x = some j → ∀ d, b' x d = c.s.bank x d := by
   obtain ⟨b', hb, hs⟩ := bankCall_core h
   refine ⟨b', hs, ?_⟩
   intro x j hx d
   apply sendCoins_frame hb
-  · intro e; subst e; simp [Addr.esc] at hx
-  · intro e; subst e; simp [Addr.esc] at hx
+  · intro e; subst e; simp [escIdx] at hx
+  · intro e; subst e; simp [escIdx] at hx
 
 /-! ### slack of the three escrows -/
 
@@ -179,7 +179,7 @@ theorem Keeps.exact {s s' : Core} {i : Nat} {v v' : AView} (k : Keeps s s' i v v
 structure Local (i : Nat) (s s' : Core) : Prop where
   len : s'.views.length = s.views.length
   views : ∀ j, j ≠ i → s'.views[j]? = s.views[j]?
-  bank : ∀ x j, x.esc = some j → j ≠ i → ∀ d, s'.bank x d = s.bank x d
+  bank : ∀ x j, escIdx x = some j → j ≠ i → ∀ d, s'.bank x d = s.bank x d
 
 /-- a successful operation on auction `i` (whose record is well formed) -/
 def Good (i : Nat) (s s' : Core) : Prop :=
@@ -206,13 +206,13 @@ def AllEx (s : Core) : Prop :=
   (∀ i v, s.views[i]? = some v → EscrowExact s i v) ∧ FutureEscrowsEmpty s
 
 theorem escrowCovered_frame {s s' : Core} {j : Nat} {v : AView}
-    (hb : ∀ x, x.esc = some j → ∀ d, s'.bank x d = s.bank x d)
+    (hb : ∀ x, escIdx x = some j → ∀ d, s'.bank x d = s.bank x d)
     (h : EscrowCovered s j v) : EscrowCovered s' j v := by
   obtain ⟨a, b, c⟩ := h
   exact ⟨by rw [hb _ rfl]; exact a, by rw [hb _ rfl]; exact b, by rw [hb _ rfl]; exact c⟩
 
 theorem escrowExact_frame {s s' : Core} {j : Nat} {v : AView}
-    (hb : ∀ x, x.esc = some j → ∀ d, s'.bank x d = s.bank x d)
+    (hb : ∀ x, escIdx x = some j → ∀ d, s'.bank x d = s.bank x d)
     (h : EscrowExact s j v) : EscrowExact s' j v := by
   obtain ⟨a, b, c⟩ := h
   exact ⟨fun d => by rw [hb _ rfl]; exact a d, fun d => by rw [hb _ rfl]; exact b d,
@@ -256,13 +256,13 @@ theorem Good.allEx {i : Nat} {s s' : Core} (g : Good i s s')
 
 /-- same views, same escrow balances -/
 theorem allCov_of_same {s s' : Core} (hv : s'.views = s.views)
-    (hb : ∀ x j, x.esc = some j → ∀ d, s'.bank x d = s.bank x d) (h : AllCov s) : AllCov s' := by
+    (hb : ∀ x j, escIdx x = some j → ∀ d, s'.bank x d = s.bank x d) (h : AllCov s) : AllCov s' := by
   intro j w hj
   rw [hv] at hj
   exact escrowCovered_frame (fun x hx d => hb x j hx d) (h j w hj)
 
 theorem allEx_of_same {s s' : Core} (hv : s'.views = s.views)
-    (hb : ∀ x j, x.esc = some j → ∀ d, s'.bank x d = s.bank x d) (h : AllEx s) : AllEx s' := by
+    (hb : ∀ x j, escIdx x = some j → ∀ d, s'.bank x d = s.bank x d) (h : AllEx s) : AllEx s' := by
   refine ⟨?_, ?_⟩
   · intro j w hj
     rw [hv] at hj
@@ -276,7 +276,7 @@ theorem allEx_of_same {s s' : Core} (hv : s'.views = s.views)
     escrows of other auctions -/
 theorem good_of_set_wf {s s' : Core} {i : Nat} {v v' : AView} (hv : s.views[i]? = some v)
     (hviews : s'.views = s.views.set i v')
-    (h : ViewWF i v → (∀ x j, x.esc = some j → j ≠ i → ∀ d, s'.bank x d = s.bank x d) ∧
+    (h : ViewWF i v → (∀ x j, escIdx x = some j → j ≠ i → ∀ d, s'.bank x d = s.bank x d) ∧
       Keeps s s' i v v') : Good i s s' := by
   have hi : i < s.views.length := by
     rcases Nat.lt_or_ge i s.views.length with h1 | h1
@@ -290,13 +290,13 @@ theorem good_of_set_wf {s s' : Core} {i : Nat} {v v' : AView} (hv : s.views[i]? 
 
 theorem good_of_set {s s' : Core} {i : Nat} {v v' : AView} (hv : s.views[i]? = some v)
     (hviews : s'.views = s.views.set i v')
-    (hbank : ∀ x j, x.esc = some j → j ≠ i → ∀ d, s'.bank x d = s.bank x d)
+    (hbank : ∀ x j, escIdx x = some j → j ≠ i → ∀ d, s'.bank x d = s.bank x d)
     (hk : ViewWF i v → Keeps s s' i v v') : Good i s s' :=
   good_of_set_wf hv hviews (fun w => ⟨hbank, hk w⟩)
 
 theorem local_of_set {s s' : Core} {i : Nat} {v v' : AView} (hv : s.views[i]? = some v)
     (hviews : s'.views = s.views.set i v')
-    (hbank : ∀ x j, x.esc = some j → j ≠ i → ∀ d, s'.bank x d = s.bank x d) :
+    (hbank : ∀ x j, escIdx x = some j → j ≠ i → ∀ d, s'.bank x d = s.bank x d) :
     Local i s s' ∧ s'.views[i]? = some v' := by
   have hi : i < s.views.length := by
     rcases Nat.lt_or_ge i s.views.length with h1 | h1
@@ -310,7 +310,7 @@ theorem local_of_set {s s' : Core} {i : Nat} {v v' : AView} (hv : s.views[i]? = 
 
 /-- the records that enter the owed amounts and the escrow balances are unchanged -/
 theorem keeps_of_eq {s s' : Core} {i : Nat} {v v' : AView}
-    (hbank : ∀ x, x.esc = some i → ∀ d, s'.bank x d = s.bank x d)
+    (hbank : ∀ x, escIdx x = some i → ∀ d, s'.bank x d = s.bank x d)
     (hst : v'.a.status = v.a.status) (hsd : v'.a.sellDenom = v.a.sellDenom)
     (hpd : v'.a.payDenom = v.a.payDenom) (hsa : v'.a.sellAmt = v.a.sellAmt)
     (hr : reservedTotal v' = reservedTotal v) (hu : unreleasedTotal v' = unreleasedTotal v) :
@@ -333,7 +333,7 @@ theorem good_of_same {s s' : Core} {i : Nat} {v : AView} (hv : s.views[i]? = som
 /-! ### a new auction appended -/
 
 theorem allCov_append {s s' : Core} {v : AView} (hviews : s'.views = s.views ++ [v])
-    (hbank : ∀ x j, x.esc = some j → j ≠ s.views.length → ∀ d, s'.bank x d = s.bank x d)
+    (hbank : ∀ x j, escIdx x = some j → j ≠ s.views.length → ∀ d, s'.bank x d = s.bank x d)
     (hnew : EscrowCovered s' s.views.length v) (h : AllCov s) : AllCov s' := by
   intro j w hj
   rw [hviews] at hj
@@ -349,7 +349,7 @@ theorem allCov_append {s s' : Core} {v : AView} (hviews : s'.views = s.views ++ 
     cases hj
 
 theorem allEx_append {s s' : Core} {v : AView} (hviews : s'.views = s.views ++ [v])
-    (hbank : ∀ x j, x.esc = some j → j ≠ s.views.length → ∀ d, s'.bank x d = s.bank x d)
+    (hbank : ∀ x j, escIdx x = some j → j ≠ s.views.length → ∀ d, s'.bank x d = s.bank x d)
     (hnew : EscrowExact s' s.views.length v) (h : AllEx s) : AllEx s' := by
   refine ⟨?_, ?_⟩
   · intro j w hj
@@ -371,4 +371,4 @@ theorem allEx_append {s s' : Core} {v : AView} (hviews : s'.views = s.views ++ [
     rw [hbank (.sell j) j rfl hne, hbank (.pay j) j rfl hne, hbank (.vest j) j rfl hne]
     exact h.2 j (by omega) d
 
-end Fundraising
+end Fundraising.EscrowInv
